@@ -11,7 +11,7 @@ from sa.index import Builtin, FuncInfo, DICT_MUTATORS, AnalysisError
 from sa.paths import Walker, Model, call_name
 from sa.access import accesses, root_of
 from sa.consteval import Folder, Unknown
-from rules.locks import is_private
+from rules.locks import is_private, is_module_helper
 
 MAP = '_map'
 ROOT = 'root'
@@ -60,7 +60,7 @@ def map_list_key(w, v):
 class OMDModel(Model):
     def inline(self, walker, op, callee, st):
         if callee.cls is None:
-            return False
+            return is_module_helper(op, callee)
         rv = op.recv_val
         if isinstance(rv, ast.Name) and rv.id == 'self':
             return is_private(callee.name)
@@ -89,6 +89,10 @@ class OMDModel(Model):
                 if isinstance(e, ast.Call) and isinstance(e.func, ast.Attribute) and e.func.attr == '__contains__' \
                         and is_super_call(e.func.value) and e.args:
                     k = txt(e.args[0])
+                elif isinstance(e, ast.Call) and isinstance(e.func, ast.Attribute) and e.func.attr == '__contains__' \
+                        and isinstance(e.func.value, ast.Name) and e.func.value.id == 'dict' and len(e.args) == 2 \
+                        and txt(e.args[0]) == 'self':
+                    k = txt(e.args[1])          # dict.__contains__(self, k)
                 elif isinstance(e, ast.Compare) and len(e.ops) == 1 and isinstance(e.ops[0], (ast.In, ast.NotIn)) \
                         and txt(e.comparators[0]) in ('self', 'self.' + MAP):
                     k = txt(e.left)
